@@ -47,6 +47,23 @@ Proof.
     intros x y S. apply S.
 Qed.
 
+Lemma ids_incl_pols : forall c c', Forall2 pol_ids_sub (pols c) (pols c') -> nodes c' = nodes c -> forall k, incl (ids k c') (ids k c).
+Proof.
+  intros c c' HF Hn k id Hin.
+  destruct (match k with KNode => true | _ => false end) eqn:E.
+  - destruct k; try discriminate. cbn [ids] in *. unfold node_ids in *. rewrite Hn in Hin. exact Hin.
+  - rewrite ids_flat in * by (destruct k; discriminate).
+    eapply subl_In; [|exact Hin]. apply Forall2_flat_map_subl. eapply (Forall2_impl pol_ids_sub); [|exact HF].
+    intros x y S. apply S.
+Qed.
+
+Lemma ids_incl_filter : forall c c' f, pols c' = filter f (pols c) -> nodes c' = nodes c -> forall k, incl (ids k c') (ids k c).
+Proof.
+  intros c c' f Ep En k id Hin. destruct k; cbn [ids] in *;
+    unfold sg_ids, sh_ids, ig_ids, ix_ids, mst_ids, node_ids in *; rewrite ?Ep, ?En in Hin;
+    try (eapply subl_In; [apply subl_flat_map, subl_filter | exact Hin]). exact Hin.
+Qed.
+
 Lemma pol_shrink_ids_sub : forall p p', pol_shrink p p' -> pol_ids_sub p p'.
 Proof.
   intros p p' (_ & _ & _ & (mid & M1 & M2) & S1 & S2 & S3 & _) k. destruct k; cbn [pol_ids].
@@ -233,9 +250,17 @@ Proof.
     destruct (get_pol c db rp) as [p|]; [|apply ids_step_refl].
     match goal with |- context [if ?t then err c else _] => destruct t end; [apply ids_step_refl|].
     destruct (negb (spec_valid _ _)); [apply ids_step_refl|].
-    destruct (rekey c); cbn [fst ok]; [destruct (mkdef || _) | destruct mkdef];
-      try (eapply ids_step_trans_db; [|intros; apply ids_set_default]);
-      apply ids_step_upd_pol; intros q; apply pol_ids_sub_meta; try reflexivity; apply subl_refl.
+    destruct (rekey c); cbn [fst ok].
+    + assert (A : forall X, ids_step c X -> ids_step c (if mkdef || (db_default y =? rp_nm p) then set_default X db nn else X)).
+      { intros X HX. destruct (mkdef || _); [|exact HX]. eapply ids_step_trans_db; [exact HX | intros; apply ids_set_default]. }
+      apply A. destruct (nn =? rp_name p).
+      * apply ids_step_upd_pol; intros q; apply pol_ids_sub_meta; try reflexivity; apply subl_refl.
+      * apply ids_step_incl. intros k0. eapply incl_tran.
+        -- apply (ids_incl_pols (set_pols c (filter (fun q => negb (is_pol db nn q)) (pols c)))); [|reflexivity]. unfold upd_pol. cbn [pols set_pols].
+           apply updf_Forall2; [apply pol_ids_sub_refl | intros q _; apply pol_ids_sub_meta; try reflexivity; apply subl_refl].
+        -- eapply ids_incl_filter; reflexivity.
+    + destruct mkdef; try (eapply ids_step_trans_db; [|intros; apply ids_set_default]);
+        apply ids_step_upd_pol; intros q; apply pol_ids_sub_meta; try reflexivity; apply subl_refl.
   - (* cancel_delete_sg *) unfold cancel_delete_sg. destruct (get_pol c db rp) as [p|]; [|apply ids_step_refl].
     destruct (find _ (rp_sgs p)) as [g|]; [|apply ids_step_refl]. destruct (negb (sg_del g)); [apply ids_step_refl|].
     destruct (_ && _); [apply ids_step_refl|]. cbn [fst ok].
